@@ -354,6 +354,78 @@ func otherBodyScenario(kind int) scenario {
 	}}
 }
 
+// A newer polka learnt late, with one validator down: the victim is locked on B (round r1); in round r2 the others
+// lock on C, but the victim sees the polka for C only after it has left round r2; from then on one of the others is
+// down, so the victim's vote is needed: it must unlock (the polka is from a later round than its lock) and go with C.
+var lateNewerPolka = scenario{"newer-polka-learnt-late-one-validator-down", func(s *Script, h uint64) bool {
+	if _, ok := lockOn(s); !ok {
+		return false
+	}
+	down, up := s.Others[0], s.Others[1:]
+	s.ToHarnessProposerRound()
+	r2 := s.RS().Round
+	c := s.Block(1)
+	if c == nil || !s.Propose(c, 0, true) {
+		return false
+	}
+	// the victim prevoted its lock; it sees two of the three prevotes for C (no polka yet), precommits nil; the two
+	// others that stay up precommit C (they saw the polka); the round ends without decision
+	s.Votes(kproto.PrevoteType, r2, c.bid, up)
+	if s.RS().Step == cstypes.RoundStepPrevoteWait {
+		s.Fire()
+	}
+	s.Votes(kproto.PrecommitType, r2, c.bid, up)
+	if s.RS().Round == r2 {
+		s.Fire()
+	}
+	if s.RS().Round <= r2 || s.RS().Height != h || s.RS().LockedBlock == nil {
+		return false
+	}
+	// now the third prevote of round r2 arrives (its sender goes down afterwards): polka for C in r2 > lock round
+	s.Votes(kproto.PrevoteType, r2, c.bid, []int{down})
+	contains := func(l []int, x int) bool {
+		for _, y := range l {
+			if y == x {
+				return true
+			}
+		}
+		return false
+	}
+	for i := 0; i < 12 && s.RS().Height == h && !s.V.Dead; i++ {
+		s.EnterRound()
+		r := s.RS().Round
+		if contains(up, s.proposerIdx()) {
+			s.Propose(c, r2, true) // locked proposers re-propose C with its proof-of-lock round
+		}
+		if s.RS().Step <= cstypes.RoundStepPropose {
+			s.Fire()
+		}
+		s.Votes(kproto.PrevoteType, r, c.bid, up)
+		if s.RS().Height != h {
+			break
+		}
+		if s.RS().Step == cstypes.RoundStepPrevoteWait {
+			s.Fire()
+		}
+		// the others precommit C only if they saw a polka for it in this round, i.e. if the victim prevoted it
+		pc := nilID
+		for _, v := range votesOf(s.RS().Votes.Prevotes(r)) {
+			if v.ValidatorAddress == s.V.Addr && BIDKey(v.BlockID) == BIDKey(c.bid) {
+				pc = c.bid
+			}
+		}
+		s.Votes(kproto.PrecommitType, r, pc, up)
+		if s.RS().Height == h && s.RS().Round == r {
+			s.Fire()
+		}
+	}
+	if s.RS().Height == h && !s.V.Dead {
+		s.Fail = fmt.Sprintf("locked on a block in round %d, the validator learnt of the polka for another block of round %d after leaving that round; with one validator down its vote is needed, but 12 rounds later (the two others proposing, prevoting and - after a polka - precommitting that block) height %d is not committed: %s", r2-1, r2, h, s.Net.Dump())
+	}
+	// the generic finish below would commit with all three others: the judgement is made here
+	return true
+}}
+
 func allScenarios() []scenario {
 	out := append([]scenario{}, scenarios...)
 	out = append(out, commitThenProposal)
@@ -363,6 +435,7 @@ func allScenarios() []scenario {
 	}
 	out = append(out, cachePrimed)
 	out = append(out, otherBodyScenario(0), otherBodyScenario(1))
+	out = append(out, lateNewerPolka)
 	return out
 }
 
@@ -405,8 +478,14 @@ func ScenarioCase(c *core.Case, prop string) {
 	} else {
 		run.Count("scenario_not_reached:"+sc.name, 1)
 	}
+	if s.Fail != "" {
+		run.Count("scenario_own_liveness_judgement_failed:"+sc.name, 1)
+		if prop == "C04" {
+			c.Violation("victim-cannot-finish-height@"+scenarioClass(sc.name), s.Fail, map[string]interface{}{"scenario": sc.name, "victim": victim, "height": atHeight, "script": s.Log})
+		}
+	}
 	// let the height finish normally afterwards (the victim must still be able to commit)
-	if !s.V.Dead && s.RS().Height == h {
+	if !s.V.Dead && s.RS().Height == h && s.Fail == "" {
 		for i := 0; i < 6 && s.RS().Height == h; i++ {
 			s.ToHarnessProposerRound()
 			if s.RS().Height != h {
